@@ -39,6 +39,7 @@ def check_case(ctx, case):
         prog['params'] = case['params']
     eff = FR.model_effects(prog)
     what = 'faults=%r params=%r' % (case['faults'], case.get('params'))
+    flags['prior'] = case.get('prior')
     fr = FR.FaultRun(prog, flags, enabled=True, cassette=case.get('cassette', 'memory'), seed=case.get('seed', 3))
     try:
         # an inner operation called after the outer recording was discarded is no longer refused: it gets a
@@ -155,7 +156,8 @@ def nontrivial(prog, faults):
 def enumerate_case(ctx, base):
     prog = base['prog']
     for fl in FR.placements(ctx, prog, base['pair_seed']):
-        case = {'prog': prog, 'faults': fl, 'params': base['params'], 'cassette': base['cassette'], 'seed': base['seed']}
+        case = {'prog': prog, 'faults': fl, 'params': base['params'], 'cassette': base['cassette'], 'seed': base['seed'],
+                'prior': base.get('prior')}
         try:
             kind, replayed, eff = check_case(ctx, case)
         except Violation as v:
@@ -209,7 +211,8 @@ def replay(ctx, case):
 def run(ctx):
     bases = st.fixed_dictionaries({'prog': FR.with_nested_operation(FR.base_programs()), 'params': st.sampled_from(PARAMS),
                                    'pair_seed': st.integers(0, 10 ** 6), 'seed': st.integers(0, 50),
-                                   'cassette': st.sampled_from(['memory', 'memory', 'file', 's3'])})
+                                   'cassette': st.sampled_from(['memory', 'memory', 'file', 's3']),
+                                   'prior': st.sampled_from([None, None, ['record'], ['record', 'play']])})
     ok = hyp_search(ctx, bases, lambda b: enumerate_case(ctx, b), ctx.pick(30, 200), label='faults')
     if ok:
         hyp_search(ctx, scheduled_cases(), lambda c: run_scheduled(ctx, c), ctx.pick(60, 1500), label='scheduled')
